@@ -250,6 +250,46 @@ def _fields(repo, rep):
     an = nested(anames, apar)
     rep.count("regex_groups", len(tnames) + len(anames))
 
+    # --- lossless dissection: every consuming atom of the two tag regexes
+    # lies inside a captured group that is emitted --------------------------
+    def uncovered(items, emitted, names_by_gid):
+        C = rx.C
+        out = []
+        for op, av in items:
+            if op is C.AT or op in (C.ASSERT, C.ASSERT_NOT):
+                continue
+            if op is C.SUBPATTERN:
+                gid = av[0]
+                nm = names_by_gid.get(gid)
+                if nm in emitted:
+                    continue
+                out += uncovered(av[3], emitted, names_by_gid)
+            elif op is C.BRANCH:
+                for alt in av[1]:
+                    out += uncovered(alt, emitted, names_by_gid)
+            elif op in (C.MAX_REPEAT, C.MIN_REPEAT):
+                out += uncovered(av[2], emitted, names_by_gid)
+            elif op is C.GROUPREF:
+                if names_by_gid.get(av) not in emitted:
+                    out.append("backreference to group %s" % av)
+            else:
+                out.append("%s %s" % (op, str(av)[:30]))
+        return out
+    for label, sub, names, emitted in (
+            ("match_tag_prefix_and_name", tsub, tnames,
+             {"prefix", "name", "suffix"}),
+            ("match_single_attribute", asub, anames,
+             {"space", "name", "eq", "quote", "value", "alt_value",
+              "simple_value"})):
+        by_gid = {g: n for n, g in names.items()}
+        un = uncovered(list(sub), emitted, by_gid)
+        rep.check(not un, "R03.3", PARSER + "." + label,
+                  "every character the regex consumes belongs to a captured "
+                  "group that is emitted (%s): the dissection of a tag loses "
+                  "nothing" % ", ".join(sorted(emitted)),
+                  construct="uncaptured:" + label,
+                  detail="consumed outside any emitted group: %s" % un[:3])
+
     # --- how node fields are fed from the parsed tag -----------------------
     ve = L.emission(repo, PROG + "visit_element")
     vfunc = repo.func(PROG + "visit_element")
@@ -405,6 +445,37 @@ def _fields(repo, rep):
             ("token = token[end:]", "attributes are searched after the name")):
         rep.check(need in text, "R03.3", mt.qualname, what,
                   construct="match_tag:" + need[:12], where=L.where(mt))
+    # finditer skips text that matches no attribute: the loop has to account
+    # for the gaps between consecutive matches (by their start offsets)
+    loops = [n for n in ast.walk(mt.node) if isinstance(n, ast.For)
+             and "finditer(" in src(n.iter)]
+    rep.check(len(loops) == 1, "R03.3", mt.qualname, "attributes are found "
+              "by one finditer scan of the tag's tail",
+              construct="attr-scan", where=L.where(mt))
+    if len(loops) == 1:
+        lv = src(loops[0].target)
+        uses_start = any(isinstance(n, ast.Call) and
+                         src(n.func) == lv + ".start"
+                         for n in ast.walk(mt.node))
+        rep.check(uses_start, "R03.3", mt.qualname,
+                  "text between two attribute matches (skipped by finditer) "
+                  "is kept: the scan looks at where each match starts",
+                  construct="attribute-gaps", where=L.where(mt),
+                  detail="only %s.end() of the last match is used: "
+                         "characters that match no attribute are dropped"
+                         % lv)
+    # an end tag is dissected by the same function: what it yields as
+    # 'attrs' must be emitted or rejected
+    used = set()
+    for n in ast.walk(vfunc.node):
+        if isinstance(n, ast.Subscript) and src(n.value) == "end" and \
+                isinstance(n.slice, ast.Constant):
+            used.add(n.slice.value)
+    rep.check("attrs" in used, "R03.3", vfunc.qualname,
+              "attribute-like text inside an end tag is emitted (or "
+              "rejected), like every other part of the tag",
+              construct="end:attrs-dropped", where=L.where(vfunc),
+              detail="the End node is built from %s only" % sorted(used))
     for g in ("space", "name", "eq", "quote", "value", "alt_value",
               "simple_value"):
         rep.check(g in anames, "R03.3", PARSER + ".match_single_attribute",
